@@ -26,7 +26,16 @@ def impl_kw(a, b, form):
     except Exception: return "raised"
 
 
+def run_threads(tier, out, rnd):
+    """the first durations a process computes, asked for by several threads at once"""
+    ps = [("00:00", "23:59"), ("23:59", "00:00"), ("12:00", "12:00"), ("00:01", "00:00")] + [(hm(rnd.randrange(1440)), hm(rnd.randrange(1440))) for _ in range(60)]
+    ex = lib.run_model([lib.req("duration_spec", a, b) for a, b in ps])
+    world.run_threads(out, "several-threads-from-the-first-call-on", "props.c14", "impl", [list(p) for p in ps], ex, lambda c: "calc_duration(%r, %r)" % tuple(c or ("?", "?")),
+                      startups=64 if tier == "quick" else 1000, spread=False)
+
+
 def run(tier, rnd, out):
+    run_threads(tier, out, rnd)
     pairs = []
     for s in range(1440): pairs += [(hm(s), hm(s)), (hm(s), hm(s + 1)), (hm(s), hm(s - 1)), ("00:00", hm(s)), (hm(s), "00:00"), ("23:59", hm(s)), (hm(s), "23:59")]
     pairs += [(hm(rnd.randrange(1440)), hm(rnd.randrange(1440))) for _ in range(3000)]
@@ -82,6 +91,17 @@ def run(tier, rnd, out):
         mo = lib.run_model([lib.req("duration", c["start"], c["end"]) for c in zc]); ex = lib.run_model([lib.req("duration_spec", c["start"], c["end"]) for c in zc])
         lib.differential(out, "under-zones-on-transition-days", zc, io, mo, ex, lambda c: "zone %s now %d calc_duration(%r, %r)" % (c["zone"], c["now"], c["start"], c["end"]),
                          nontrivial=lambda c: c["start"] != c["end"], sample=lambda c: c, classify=lambda c, i: c["zone"])
+    # every zone of the tz database (the zones above are the ones with odd rules today; a zone can be odd on another date, too - the
+    # date the parsing anchors its values on is 1 January 1900, where a few zones leave local mean time that very day)
+    allz = sorted(zoneinfo.available_timezones() - {"localtime", "Factory"})
+    if tier == "quick": allz = [z for z in allz if "/" in z and not z.startswith(("Etc/", "posix/", "right/", "SystemV/", "US/", "Brazil/", "Canada/", "Chile/", "Mexico/"))]
+    corner = ["00:00", "00:01", "00:02", "00:03", "00:30", "06:30", "12:00", "23:59"]
+    zc = [{"zone": z, "now": 1_700_000_000, "start": a, "end": b} for z in allz for a, b in ([(a, b) for a in corner[:4] for b in corner[3:]] + [(b, a) for a in corner[:4] for b in corner[4:]]
+                                                                                  + [(hm(rnd.randrange(1440)), hm(rnd.randrange(1440)))])]
+    io = world.zone_job("UTC", "duration", zc)
+    lib.differential(out, "every-zone-of-the-tz-database", zc, io, lib.run_model([lib.req("duration", c["start"], c["end"]) for c in zc]), lib.run_model([lib.req("duration_spec", c["start"], c["end"]) for c in zc]),
+                     lambda c: "zone %s calc_duration(%r, %r)" % (c["zone"], c["start"], c["end"]), nontrivial=lambda c: c["start"] != c["end"], sample=lambda c: c,
+                     classify=lambda c, i: c["zone"].split("/")[0])
     # schedules that arrive through the parser: the duration is that of the listed start and end times, whatever seconds or zone
     # rules the device's timestamps carry
     from props import c10
@@ -113,6 +133,9 @@ def run(tier, rnd, out):
 
 def replay(rp, out):
     c = rp["input"]
+    if "threads" in rp.get("stream", ""):
+        import random
+        return run_threads("thorough", out, random.Random(1))
     if "slot" in c or rp.get("stream") == "schedules-listed-by-the-parser":       # a sequence of objects / a listing: the whole quick run is the replay
         import random
         run("quick", random.Random(int(rp.get("seed", 1))), out); return
